@@ -23,6 +23,7 @@ SEED0 = 14000
 # exhaustive pools and the number of pieces each is generated in (<= ~500 matrices per piece)
 EXH_POOLS = [("x_bool", 6), ("x_u8", 1), ("x_u8s", 1), ("x_Ea", 4), ("x_bb", 4), ("x_bu", 6), ("x_eb", 2), ("x_Sa", 3),
              ("x_Eb", 1), ("x_Ec", 3), ("x_bbb", 2), ("x_Sb", 1)]
+FULL_LEMMA = {"x_u8.0", "x_u8s.0", "x_Ea.0", "x_bu.0", "x_eb.0", "x_Sa.0", "x_Ec.0", "x_Sb.0"}
 RND_TYPES = ["u8", "Ea", "Eb", "Ec", "Sa", "Sb", "bb", "bu", "eb", "bbb", "uu", "es", "tbb"]
 NRAND = 200          # random matrices per chunk
 CHUNKS = 3           # chunks per type
@@ -48,7 +49,9 @@ def all_units():
 
 def gen_unit(ctx, unit):
     name, sel, nrand, k, r, seed = unit
-    full_lemma = name.startswith("x_")     # random pools: the leaf-level lemma only
+    # RegionLemma over the full value space (u8 = 0..255) costs ~0.5 s per matrix: checked on the first piece
+    # of every exhaustive pool whose type has a u8 leaf; the leaf-level AtomRegionLemma is checked everywhere
+    full_lemma = name in FULL_LEMMA
     cfg = os.path.join(ctx.work, "MC_%s.cfg" % name)
     with open(cfg, "w") as f:
         f.write('CONSTANT Sel = {"%s"}\nCONSTANT NRand = %d\nCONSTANT SliceK = %d\nCONSTANT SliceR = %d\n'
